@@ -337,6 +337,8 @@ def shared_field_audit(prog, cg, la, class_qnames, thread_roots, self_concurrent
                 continue
             if any(x in t for x in ("std::atomic", "mutex", "std::condition_variable", "std::thread")) or t.startswith("const "):
                 continue
+            if t.rstrip().endswith("&"):
+                continue     # a reference member is bound once in the constructor; what it refers to is another object (not audited here)
             if t in audited or ("Oomd::" + t) in audited or any(t == a.split("::")[-1] for a in audited):
                 continue     # an aggregate whose own fields are audited
             fq = fld["qname"]
